@@ -64,6 +64,8 @@ type txSpec struct {
 	dep       string // interned id or "none"
 	cost      *big.Int
 	reverting bool
+	to        *acct
+	registered bool
 }
 
 type envOpts struct {
@@ -95,6 +97,7 @@ type env struct {
 	heads   []headFact
 	evs     *evlog
 	baseGP  *big.Int
+	plan     *acct // an account with a prototype credit plan, users and a sponsor: txs to it may be paid by others
 	lastHead thor.Bytes32 // the head the last Head event described
 	blocks   *trace.Interner
 	pnode    *node.Node // a real node whose tx pool is the pool under test: its packer loop body consumes the executables
@@ -231,6 +234,45 @@ func (e *env) isSynced(ts uint64) bool {
 	return d < thor.BlockInterval()*6
 }
 
+// payerOf mirrors the payer order of runtime.BuyGas for a non-delegated tx whose clauses all go to the plan account, on the
+// state of the current head (for the next block): enough user credit -> the current sponsor if it can pay, else the account
+// itself if it can; otherwise (or without credit) the origin if it can; else nobody.
+func (e *env) payerOf(s *txSpec) string {
+	best := e.best()
+	st := e.net.God.Stater.NewState(best.Root())
+	when := best.Header.Timestamp() + thor.BlockInterval()
+	bf := e.nextBaseFee()
+	if bf == nil && s.tx.Type() != tx.TypeLegacy {
+		bf = new(big.Int).SetUint64(thor.InitialBaseFee)
+	}
+	prepaid := new(big.Int).Mul(new(big.Int).SetUint64(s.tx.Gas()), s.tx.EffectiveGasPrice(bf, e.baseGP))
+	energy := builtin.Energy.Native(st, when)
+	can := func(a thor.Address) bool {
+		v, err := energy.Get(a)
+		must(err)
+		return v.Cmp(prepaid) >= 0
+	}
+	binding := builtin.Prototype.Native(st).Bind(e.plan.addr)
+	credit, err := binding.UserCredit(s.org.addr, when)
+	must(err)
+	if credit.Cmp(prepaid) >= 0 {
+		sponsor, err := binding.CurrentSponsor()
+		must(err)
+		is, err := binding.IsSponsor(sponsor)
+		must(err)
+		if is && can(sponsor) {
+			return e.acctName(sponsor)
+		}
+		if can(e.plan.addr) {
+			return e.plan.name
+		}
+	}
+	if can(s.org.addr) {
+		return s.org.name
+	}
+	return "nobody"
+}
+
 // energyOf is the payer's VTHO as the pool and the packer see it for the block after the current head.
 func (e *env) energyOf(a *acct) *big.Int {
 	best := e.best()
@@ -298,6 +340,7 @@ type txParams struct {
 	drain     *big.Int // the clause transfers this much VTHO away from the origin
 	clauses   int      // > 0: that many plain zero-value clauses (block filler)
 	refID     *thor.Bytes32 // block ref = the first 8 bytes of this block id (proved work only counts then)
+	raw       []*tx.Clause  // the clauses, verbatim
 	prioWei   *big.Int      // typed: maxPriorityFeePerGas in wei (overrides maxPrio)
 	minWork   int64         // mine the nonce until the tx's work is at least this
 }
@@ -342,6 +385,15 @@ func (e *env) prioWith(t *tx.Transaction, bf *big.Int, work *big.Int) *big.Int {
 		return t.OverallGasPrice(e.baseGP, work)
 	}
 	return t.EffectivePriorityFeePerGas(bf, e.baseGP, work)
+}
+
+// prioAt is the priority fee t has for the block after the given head (current base fee, work only while it counts).
+func (e *env) prioAt(t *tx.Transaction, head thor.Bytes32) *big.Int {
+	sum, err := e.net.God.Repo.GetBlockSummary(head)
+	must(err)
+	work, err := t.ProvedWork(sum.Header.Number()+1, e.net.God.Repo.NewChain(head).GetBlockID)
+	must(err)
+	return e.prioWith(t, galactica.CalcBaseFee(sum.Header, e.net.FC), work)
 }
 
 // workOf is the work that counts for t while its block ref is recent enough: its own (unproved) work if the block ref
@@ -424,7 +476,11 @@ func (e *env) build(p txParams, sameBodyAs *txSpec) *txSpec {
 		if p.to != nil {
 			to = p.to.addr
 		}
-		if p.clauses > 0 {
+		if p.raw != nil {
+			for _, c := range p.raw {
+				b.Clause(c)
+			}
+		} else if p.clauses > 0 {
 			for i := 0; i < p.clauses; i++ {
 				b.Clause(tx.NewClause(&to).WithValue(big.NewInt(0)))
 			}
@@ -477,7 +533,7 @@ func (e *env) build(p txParams, sameBodyAs *txSpec) *txSpec {
 		return old
 	}
 	id := signed.ID()
-	s := &txSpec{h: e.hashes.Name(h[:]), id: e.ids.Name(id[:]), tx: signed, org: p.org, dlg: p.dlg, dep: "none", reverting: p.reverting}
+	s := &txSpec{h: e.hashes.Name(h[:]), id: e.ids.Name(id[:]), tx: signed, org: p.org, dlg: p.dlg, dep: "none", reverting: p.reverting, to: p.to}
 	if sameBodyAs != nil {
 		s.dep = sameBodyAs.dep
 		s.reverting = sameBodyAs.reverting
@@ -492,6 +548,7 @@ func (e *env) build(p txParams, sameBodyAs *txSpec) *txSpec {
 // register emits the Tx event: what the specification may know about this signed transaction.
 func (e *env) register(s *txSpec) {
 	t := s.tx
+	s.registered = true
 	price := e.effPrice(t)
 	if e.nextBaseFee() != nil && t.Type() != tx.TypeLegacy {
 		// typed: min(maxFee, baseFee + maxPrio) with the base fee of this run (constant, see DESIGN: blocks stay small)
@@ -510,7 +567,7 @@ func (e *env) register(s *txSpec) {
 	}
 	prios, priosnw := e.prioTables(t)
 	e.evs.emit(trace.Ev{"e": "Tx", "h": s.h, "tx": map[string]any{
-		"prios": prios, "priosnw": priosnw,
+		"prios": prios, "priosnw": priosnw, "k": s.h,
 		"id": s.id, "org": s.org.name, "dlg": dlg, "cost": units(s.cost), "costs": costs, "cap": digits(feeCap(t, e.baseGP)), "prio": digits(e.expectedPrio(t, true)), "prio0": digits(e.expectedPrio(t, false)),
 		"ref": t.BlockRef().Number(), "exp": t.Expiration(), "dep": s.dep, "typed": t.Type() != tx.TypeLegacy,
 	}})
@@ -580,7 +637,16 @@ func (e *env) headEvent() {
 	if bf == nil {
 		bf = new(big.Int)
 	}
-	e.evs.emit(trace.Ev{"e": "Head", "hd": map[string]any{"num": h.Number(), "incl": incl, "rev": rev, "energy": en, "basefee": digits(bf), "bf": bf.String(),
+	// who pays the txs that go to the account with the credit plan (prototype: sponsor, the account itself, or the origin)
+	payers := map[string]any{}
+	if e.plan != nil {
+		for _, sp := range e.txs {
+			if sp.to == e.plan && sp.dlg == nil && sp.registered {
+				payers[sp.h] = e.payerOf(sp)
+			}
+		}
+	}
+	e.evs.emit(trace.Ev{"e": "Head", "hd": map[string]any{"num": h.Number(), "incl": incl, "rev": rev, "energy": en, "payers": payers, "basefee": digits(bf), "bf": bf.String(),
 		"id": e.blocks.Name(h.ID().Bytes()), "refresh": refresh,
 		"gala": h.Number()+1 >= e.net.FC.GALACTICA, "synced": synced}})
 }
